@@ -162,6 +162,51 @@ def run(tier):
                 ck.violation(f"malformed {r['given']}", f"malformed string list accepted and answered wrongly: {sorted(cl & CLAUSES)}", {"job": {k2: r[k2] for k2 in ("n", "given", "fmt", "api", "conn")}})
             else:
                 ck.accepted()
+    # ---- the synthesis helper called directly, with every combination of its flags, on lists of any length -------------------------------------------
+    sjobs = []
+    for n in (2, 3, 4, 5, 6):
+        for k in range((40 if quick else 400) if n <= 4 else (10 if quick else 100)):
+            g = rng.randrange(1 << (n * (n - 1) // 2))
+            gens = impl.remix(impl.apply_gates_codes(impl.random_local_layer(n, rng), impl.graph_gens(n, g)), rng)
+            prods = []
+            for _ in range(rng.randrange(0, 3)):       # further elements of the same signed group (redundant but consistent) ...
+                p = 0
+                for c in rng.sample(gens, rng.randrange(1, n + 1)):
+                    p = impl.mul(p, c)
+                prods.append(p)
+            lst = list(gens)
+            kind = k % 5
+            if kind == 1:      # ... appended, inserted or in front
+                for p in prods:
+                    lst.insert(rng.randrange(len(lst) + 1), p)
+            elif kind == 2:    # one of them with the WRONG sign (contradicts the others), anywhere - also after n independent ones
+                p = (prods or [impl.mul(gens[0], gens[-1])])[0] ^ impl.W2
+                lst.insert(rng.choice([len(lst), len(lst), rng.randrange(len(lst) + 1)]), p)
+            elif kind == 3:    # fewer than n operators (underconstrained), possibly with a redundant one
+                lst = lst[: rng.randrange(1, n)] + prods[:1] * 0
+                if rng.random() < 0.5 and len(lst) >= 2:
+                    lst.append(impl.mul(lst[0], lst[1]))
+            elif kind == 4:    # an operator that anticommutes with one of the others
+                q = rng.randrange(n)
+                lst.insert(rng.randrange(len(lst) + 1), lst[rng.randrange(len(lst))] ^ rng.choice([1 << q, 256 << q]))
+            for flags in ([(0, 0, 0), (1, 0, 0), (1, 1, 0), (0, 1, 1), (1, 1, 1)] if quick else list(itertools.product((0, 1), repeat=3))):
+                sjobs.append((n, lst, flags[0], flags[1], flags[2]))
+    srecs = par.pmap(workers.synth_flags, sjobs)
+    v, st = core.validate_traces("TraceCalls", srecs, files=files, what="C08 synth records")
+    ck.add_stats("TraceCalls(synthflags)", st)
+    souts = {"raise": 0, "return": 0}
+    for r, (cl, _) in zip(srecs, v):
+        souts[r["outcome"]] += 1
+        ck.count(("synth", r["n"], tuple(r["given"]), r["red"], r["und"], r["invert"]), True)
+        bad = cl & CLAUSES
+        if bad:
+            ck.violation(f"synth {r['n']} {r['given']} {r['red']}{r['und']}{r['invert']}", f"synth_circuit_from_stabilizers({r['given']}, allow_redundant={r['red']}, allow_underconstrained={r['und']}, invert={r['invert']}) "
+                         f"returns a circuit that fails {sorted(bad)}", {"sjob": [r["n"], r["given"], r["red"], r["und"], r["invert"]], "clauses": sorted(bad)})
+        else:
+            ck.accepted()
+    ck.cov["synth_outcomes"] = souts
+    if souts["return"] == 0 or souts["raise"] == 0:
+        raise MachineryError(f"vacuity: synth outcomes {souts}")
     # ---- configuration gate -----------------------------------------------------------------------------------
     cjobs = [(e, n, name) for e in workers.ENTRY_POINTS for n in range(1, 9) for name in NAMES if not ("[subset]" in e and n > 6)]
     crecs = par.pmap(workers.config_gate, cjobs)
@@ -197,6 +242,8 @@ def replay(path):
     if "job" in p:
         j = p["job"]
         r = workers.request({"n": j["n"], "codes": j["given"], "fmt": j["fmt"], "api": j["api"], "conn": j["conn"]})
+    elif "sjob" in p:
+        r = workers.synth_flags(tuple(p["sjob"]))
     elif "cjob" in p:
         e, n, name = p["cjob"]
         r = workers.config_gate((e, n, None if name == "<None>" else name))
